@@ -21,10 +21,12 @@ Record nest_case := mk_nest
   ; no_handlers : list N
   ; no_flags : list bool                (* is_awaiting of the deferred objects nc_ids, afterwards *)
   ; no_latches : list bool              (* is_error_condition of the instances nc_ids (false if never created) *)
-  ; no_nry : list N }.                  (* the objects held by try_compute.not_ready_yet afterwards, latest first *)
+  ; no_nry : list N                     (* the objects held by try_compute.not_ready_yet afterwards, latest first *)
+  ; no_kc : list N                      (* Awaiting.known_cycles afterwards, latest first *)
+  ; no_fcs : list (list N) }.           (* Awaiting.found_cycles_stack afterwards, top first *)
 
 Definition start (c : nest_case) : mstate :=
-  mk_mstate (mk_gstate (nc_depth0 c) [] (fun _ => false) [] []) (fun _ => false).
+  mk_mstate (mk_gstate (nc_depth0 c) [] (fun _ => false) [] [] [] []) (fun _ => false).
 
 Definition corr_nest (c : nest_case) : bool :=
   let r := eval (nc_prog c) (start c) in
@@ -34,12 +36,15 @@ Definition corr_nest (c : nest_case) : bool :=
   list_eqb N.eqb (handlers (g (snd r))) (no_handlers c) &&
   list_eqb Bool.eqb (map (flags (g (snd r))) (nc_ids c)) (no_flags c) &&
   list_eqb Bool.eqb (map (latches (snd r)) (nc_ids c)) (no_latches c) &&
-  list_eqb N.eqb (nry (g (snd r))) (no_nry c).
+  list_eqb N.eqb (nry (g (snd r))) (no_nry c) &&
+  list_eqb N.eqb (kc (g (snd r))) (no_kc c) &&
+  list_eqb (list_eqb N.eqb) (fcs (g (snd r))) (no_fcs c).
 
 (* the property on the observation alone: the module-level state is what it was *)
 Definition prop_nest (c : nest_case) : bool :=
   Z.eqb (no_depth c) (nc_depth0 c) &&
   match no_awaiting c, no_handlers c with [], [] => true | _, _ => false end &&
-  forallb negb (no_flags c).
+  forallb negb (no_flags c) &&
+  match no_kc c, no_fcs c with [], [] => true | _, _ => false end.
 
 Definition judge_nest (c : nest_case) : N := code_of (corr_nest c) (prop_nest c).
